@@ -14,6 +14,7 @@ import IsoDT.Driver.DurText
 import IsoDT.Driver.Cli
 import IsoDT.Driver.Strftime
 import IsoDT.Driver.Construct
+import IsoDT.Driver.RatOps
 
 open IsoDT IsoDT.Model
 open IsoDT.Spec (Date TZ TP)
@@ -319,6 +320,7 @@ def extDispatch (toks : List String) : Option String :=
   <|> IsoDT.Driver.DurText.dispatch toks
   <|> IsoDT.Driver.Text.dispatch toks
   <|> IsoDT.Driver.Strftime.dispatch toks
+  <|> IsoDT.Driver.RatOps.dispatch toks
   -- <|> IsoDT.Driver.Foo.dispatch toks
 
 def dispatch (toks : List String) : String :=
